@@ -14,7 +14,7 @@ PROP = "C04"
 
 def s1_group(src, nmembers, times, max_faults):
     cfg = {"member": {"auto_commit": True, "auto_commit_interval_ms": 150, "assignors": ["roundrobin"]},
-           "vary_leaderless": True, "extra_events": ("cut_off_from_coordinator",)}
+           "vary_leaderless": True, "extra_events": ("cut_off_from_coordinator",), "max_records_per_partition": 40}
     scenario, plan = GO.standard_scenario(src, cfg, nmembers, times, quiet=2.5,
                                           fault_apis=(8, 9), max_fault_requests=4, max_faults=max_faults)
     res = groupsim.run_group(src, cfg, scenario)
